@@ -1,4 +1,5 @@
 import Zc.Model.Wire.DecodeWork
+import Zc.Model.Wire.BitmapIters
 import Zc.Proofs.DecodeLib
 /-! Bounds on the loop counters of `Zc.Wire.DecodeLib.parseWork` (C02, second review finding 1): **all of them are
 linear in the length of the datagram**.
@@ -45,6 +46,28 @@ theorem bitmapTypesLib_len (w : Nat) (bm : Bytes) : (bitmapTypesLib w bm).length
       if Gen.Incoming.bitmap_bit_set (bm.getD i 0).toNat bit then some (Gen.Incoming.bitmap_rdtype bit w i) else none)) 8
     (fun i => filterMap_range8_le _) (List.range bm.length)
   simpa using this
+
+/-- the first two counters are C15's `readBitmapC` (`Model/Wire/BitmapIters.lean`, compared per call with the real loop by C15's
+harness): the per-call bound `C15_bitmap_work` and the total bound below are about the same numbers -/
+theorem readBitmapW_eq_C (buf : Bytes) (end_ : Nat) : ∀ (fuel : Nat) (st : St),
+    ((readBitmapW buf end_ fuel st).iters, (readBitmapW buf end_ fuel st).bytes) = readBitmapC buf end_ fuel st := by
+  intro fuel
+  induction fuel with
+  | zero => intro st; rfl
+  | succ fuel ih =>
+    intro st
+    unfold readBitmapW readBitmapC
+    split
+    · cases byteAt buf st.off with
+      | error e => rfl
+      | ok w =>
+        dsimp only
+        cases byteAt buf (st.off + 1) with
+        | error e => rfl
+        | ok blen =>
+          dsimp only
+          rw [← ih]
+    · rfl
 
 /-- the potential a `_read_bitmap` call pays with: scanned bytes plus two per iteration -/
 def BmWork.pot (w : BmWork) : Nat := w.bytes + 2 * w.iters
